@@ -8,13 +8,16 @@ name the exporters print.  What is mirrored here:
 * one *scope* per namespace (plus the root); inside a scope the symbols are grouped by their source name,
   the groups are visited in `String::cmp` order, and inside a group in push order
   (namespaces, structs, enums, globals, functions — each by ascending id);
-* `used_names` of a scope starts as the reserved set; a group of exactly one symbol whose name can still
-  be inserted keeps its name; every other symbol takes `name_k` for the first `k ≥ 0` that can be inserted,
-  and that candidate is also inserted into `used_names_all_scopes`;
-* afterwards every local variable (registry order) keeps its name unless that name is in
-  `used_names_all_scopes` (reserved ∪ generated candidates of all scopes); otherwise it takes the first
-  `name_k` that is neither the source name of any local variable nor in `used_names_all_scopes`, and the
-  candidate is inserted there;
+* `used_names` of a scope starts as the reserved set; **first** every group of exactly one symbol whose name
+  can still be inserted claims that name (`kept_names`), in sorted order; **then**, again in sorted order, the
+  symbols of a kept group take the name and every other symbol takes `name_k` for the first `k ≥ 0` that can be
+  inserted, and that candidate is also inserted into `used_names_all_scopes`;
+* the values of an enum are symbols of the scope that contains the enum (pushed right after the enum);
+* afterwards the name given to every function / global variable that some function body uses
+  (`usage_analysis`, an input here: `Input.used`) is inserted into `used_names_all_scopes`; then every local
+  variable (registry order) keeps its name unless that name is in `used_names_all_scopes` (reserved ∪ generated
+  candidates of all scopes ∪ names of used functions/globals); otherwise it takes the first `name_k` that is
+  neither the source name of any local variable nor in `used_names_all_scopes`, and the candidate is inserted there;
 * `get_name_qualified` walks the namespace chain of the *generated* namespace names.
 
 Rust panics inside the function (`unwrap` on a scope that was never inserted, `duplicate name for`) are
@@ -29,11 +32,12 @@ Sets (`HashSet<String>`) are lists used only through membership; the iteration o
 namespace RsslVerif.Model.Names
 
 inductive Kind where
-  | ns | struct | enum | global | func | localVar
+  | ns | struct | enum | enumValue | global | func | localVar
   deriving DecidableEq, Repr, Inhabited
 
 def Kind.letter : Kind → String
-  | .ns => "N" | .struct => "S" | .enum => "E" | .global => "G" | .func => "F" | .localVar => "L"
+  | .ns => "N" | .struct => "S" | .enum => "E" | .enumValue => "V" | .global => "G" | .func => "F"
+  | .localVar => "L"
 
 /-- `NameSymbol`: kind + index (ordinal among the symbols `build` names, not the raw registry id) -/
 structure Sym where
@@ -51,8 +55,10 @@ structure Entry where
 structure Input where
   /-- namespace registry: (parent, name) by id -/
   nss : List (Option Nat × String)
-  /-- structs, enums, globals, functions in push order -/
+  /-- structs, enums (each followed by its values), globals, functions in push order -/
   entries : List Entry
+  /-- the functions and global variables used by some function body (`GlobalUsageAnalysis`, all functions) -/
+  used : List Sym
   /-- variable registry: source names by id -/
   locals : List String
   deriving Repr, Inhabited
@@ -73,32 +79,47 @@ structure St where
   out : List (Sym × String)
   deriving Repr, Inhabited
 
+/-- the `kept_names` loop: a group of one symbol whose name can be inserted into `used_names` claims it.
+Returns `used_names` after the loop and the kept names. -/
+def claimKept : List String → List (String × List Sym) → List String × List String
+  | used, [] => (used, [])
+  | used, g :: r =>
+    if g.2.length == 1 && !used.contains g.1 then
+      let res := claimKept (g.1 :: used) r
+      (res.1, g.1 :: res.2)
+    else claimKept used r
+
 /-- the body of `for symbol in symbols` -/
-def assignSym (name : String) (single : Bool) (st : St) (s : Sym) : Except String St :=
-  if single && !st.used.contains name then
-    .ok { st with used := name :: st.used, out := st.out ++ [(s, name)] }
+def assignSym (name : String) (keep : Bool) (st : St) (s : Sym) : Except String St :=
+  if keep then
+    .ok { st with out := st.out ++ [(s, name)] }
   else
     match firstFree st.used name (st.used.length + 1) 0 with
     | .ok c => .ok { used := c :: st.used, gen := c :: st.gen, out := st.out ++ [(s, c)] }
     | .error e => .error e
 
-def assignSyms (name : String) (single : Bool) : St → List Sym → Except String St
+def assignSyms (name : String) (keep : Bool) : St → List Sym → Except String St
   | st, [] => .ok st
   | st, s :: r =>
-    match assignSym name single st s with
-    | .ok st' => assignSyms name single st' r
+    match assignSym name keep st s with
+    | .ok st' => assignSyms name keep st' r
     | .error e => .error e
 
-/-- one `(name, symbols)` entry of the sorted vector -/
-def assignGroup (st : St) (g : String × List Sym) : Except String St :=
-  assignSyms g.1 (g.2.length == 1) st g.2
+/-- one `(name, symbols)` entry of the sorted vector in the second loop -/
+def assignGroup (kept : List String) (st : St) (g : String × List Sym) : Except String St :=
+  assignSyms g.1 (kept.contains g.1) st g.2
 
-def assignGroups : St → List (String × List Sym) → Except String St
+def assignGroups (kept : List String) : St → List (String × List Sym) → Except String St
   | st, [] => .ok st
   | st, g :: r =>
-    match assignGroup st g with
-    | .ok st' => assignGroups st' r
+    match assignGroup kept st g with
+    | .ok st' => assignGroups kept st' r
     | .error e => .error e
+
+/-- both loops over the sorted vector of one scope -/
+def scopeRun (reserved : List String) (gs : List (String × List Sym)) : Except String St :=
+  let ck := claimKept reserved gs
+  assignGroups ck.2 ⟨ck.1, [], []⟩ gs
 
 /-- all symbols of one scope in push order: child namespaces first, then the entries -/
 def scopeSyms (inp : Input) (scope : Option Nat) : List (String × Sym) :=
@@ -145,7 +166,7 @@ def checkScopes (inp : Input) : Except String Unit :=
 def runScopes (reserved : List String) (inp : Input) : List (Option Nat) → Except String (List (Option Nat × St))
   | [] => .ok []
   | s :: r =>
-    match assignGroups ⟨reserved, [], []⟩ (groupsOf (scopeSyms inp s)) with
+    match scopeRun reserved (groupsOf (scopeSyms inp s)) with
     | .error e => .error e
     | .ok st =>
       match runScopes reserved inp r with
@@ -190,12 +211,18 @@ def numberLocals : List String → Nat → List Named
   | [], _ => []
   | n :: r, i => ⟨⟨.localVar, i⟩, none, n⟩ :: numberLocals r (i + 1)
 
-/-- everything after the `for scope in &scopes` loop: collect, duplicate check, local pass -/
+/-- the names given to the functions / global variables that some function body uses -/
+def usedNames (inp : Input) (globalsOut : List Named) : List String :=
+  globalsOut.filterMap fun n =>
+    if (n.sym.kind == .func || n.sym.kind == .global) && inp.used.contains n.sym then some n.name else none
+
+/-- everything after the `for scope in &scopes` loop: collect, duplicate check, names of used symbols, local pass -/
 def finish (reserved : List String) (inp : Input) (scopes : List (Option Nat × St)) : Except String (List Named) :=
   let globalsOut : List Named :=
     scopes.flatMap fun p => p.2.out.map fun q => ⟨q.1, p.1, q.2⟩
   if hasDup (globalsOut.map (·.sym)) then .error "panic:duplicate name for" else
-  match assignLocals inp.locals (reserved ++ scopes.flatMap (fun p => p.2.gen)) inp.locals with
+  match assignLocals inp.locals
+      (reserved ++ scopes.flatMap (fun p => p.2.gen) ++ usedNames inp globalsOut) inp.locals with
   | .error e => .error e
   | .ok ls => .ok (globalsOut ++ numberLocals ls 0)
 
@@ -218,7 +245,7 @@ def runScopesWith (reserved : List String) (inp : Input) (keys : Option Nat → 
     List (Option Nat) → Except String (List (Option Nat × St))
   | [] => .ok []
   | s :: r =>
-    match assignGroups ⟨reserved, [], []⟩ (groupsOfKeys (keys s) (scopeSyms inp s)) with
+    match scopeRun reserved (groupsOfKeys (keys s) (scopeSyms inp s)) with
     | .error e => .error e
     | .ok st =>
       match runScopesWith reserved inp keys r with
